@@ -111,7 +111,8 @@ def run(chk):
         "extraction with ExtrOcamlBasic only; ocamlfind ocamlopt; ocaml/common/prelude.ml + gqlread.ml + ocaml/c04/driver.ml "
         "(the driver's pruning of statically skipped selections is used ONLY to classify disagreements, never for a verdict)",
         "harness/cmd/c04: dumpers of ast.Document / merged schema document to the FEDLAB forms (self-checked against the "
-        "generator's own tree), the replication of the three admission calls of execution/engine.Execute in pipeline.go, "
+        "generator's own tree), the replication of the three admission calls of execution/engine.Execute in pipeline.go (its option and rule lists "
+        "are compared with the engine's source on every run: tie:C04/admission-sequence), "
         "the classification of Go's first error by message template",
         "coq/C04/Spec.v is a hand transcription of the GraphQL specification section 5 (October 2021 + OneOf input objects); "
         "the Go validator itself is NOT modelled: Go's verdict is compared with the extracted spec_valid_b; only the "
